@@ -248,6 +248,15 @@ fn fa_rec(r: &fasta::RefRecord) -> String {
         lines.push('.');
     }
     let n = r.num_seq_lines();
+    // the line iterator of every record the reader hands out keeps the iterator contracts (C20): the reported length is
+    // the number of lines it yields, from the front and from the back, hints bracket, fused
+    let yielded = r.seq_lines().count();
+    let lines_contract = match iter_contract(r.seq_lines(), yielded, r.seq_lines().len()) {
+        Some(m) => format!("!lines.{}", m),
+        None if r.seq_lines().rev().count() != yielded => "!lines.back".to_string(),
+        None if n != yielded => "!lines.num".to_string(),
+        None => String::new(),
+    };
     let b = matches!(r.full_seq(), Cow::Borrowed(_));
     // all writing goes through a writer that takes at most 2-3 bytes per call and has no write_vectored
     let mut u = ShortWriter::new(2);
@@ -277,7 +286,7 @@ fn fa_rec(r: &fasta::RefRecord) -> String {
         && owned_copy.seq == r.owned_seq()
         && owned_copy.head == r.head();
     format!(
-        "h={}:l={}:r={}:n={}:b={}:o={}:f={}:u={}:w={}:x={}:i={}:d={}:v={}{}",
+        "h={}:l={}:r={}:n={}:b={}:o={}:f={}:u={}:w={}:x={}:i={}:d={}:v={}{}{}",
         hex(r.head()),
         lines,
         hex(r.seq()),
@@ -294,7 +303,8 @@ fn fa_rec(r: &fasta::RefRecord) -> String {
             Some(d) => format!("~{}", hex(d)),
         },
         v,
-        agree as u8
+        agree as u8,
+        lines_contract
     )
 }
 
